@@ -1,6 +1,7 @@
 from __future__ import annotations
 
 import ast
+import copy
 import functools
 import itertools
 import re
@@ -100,6 +101,10 @@ class DefaultFormulaParser(FormulaParser):
                 self.feature_flags
             )
         if isinstance(self.operator_resolver, DefaultOperatorResolver):
+            if self.operator_resolver.feature_flags != self.feature_flags:
+                # The resolver may belong to another parser too (e.g. after
+                # `dataclasses.replace`): configure a copy, not the original.
+                self.operator_resolver = copy.copy(self.operator_resolver)
             self.operator_resolver.set_feature_flags(self.feature_flags)
 
     def set_feature_flags(
